@@ -46,6 +46,11 @@ func (v *VMValue) toJSONVisit(save map[*VMValue]bool, vis *jsonVisitor) ([]byte,
 		x.TypeId = v.TypeId
 		x.Value.Expr = cd.Expr
 		if cd.Attrs != nil {
+			if vis.onPath[cd.Attrs] {
+				return nil, errors.New("值错误: 序列化时检测到循环引用")
+			}
+			vis.onPath[cd.Attrs] = true
+			defer delete(vis.onPath, cd.Attrs)
 			attrJson, err := cd.Attrs.toJSONVisit(save, vis)
 			if err != nil {
 				return nil, err
